@@ -150,11 +150,32 @@ def has_class_cycle(fam) -> bool:
     return any(i in reach(i) for i in range(n))
 
 
+def selfref_dialect_gap(fam, snap) -> bool:
+    """a SELF-REFERENCING class whose dialect cache of some (format, direction) is filled while the class has no own
+    nested method for it: the dialect-specific builder took the 'class being compiled' shortcut; the generated call
+    then raises AttributeError or - if an ancestor has the method - silently runs the ancestor's code"""
+    for c in fam["classes"]:
+        own = snap.get(c["name"])
+        if not own or not self_referencing(fam, c["name"]):
+            continue
+        for cname, ds in own["c"].items():
+            mm = re.match(r"^(\w+)_(packer|unpacker)$", cname)
+            if not ds or not mm:
+                continue
+            name = ("to" if mm.group(2) == "packer" else "from") + "_dict" + ("" if mm.group(1) == "dict" else "_" + mm.group(1))
+            if name not in own["m"]:
+                return True
+    return False
+
+
 def classify(fam, op, got, exp, got_aux, exp_aux, got_snap, exp_snap, src="") -> dict:
     """signature of a difference between the family under test (`got`) and the fresh eager twin (`exp`).
     kind is one of the known-finding kinds only when the precise predicate of that finding holds on the
     side that failed; otherwise 'history-dependence' (= a violation)."""
     sig = {"kind": "history-dependence", "got": got[1] if got[0] == "EXC" else "OK", "exp": exp[1] if exp[0] == "EXC" else "OK"}
+    for side, snap in (("family", got_snap), ("twin", exp_snap)):
+        if "dialect=" in op and fam["classes"] and selfref_dialect_gap(fam, snap):
+            return {**sig, "kind": "dialect-first-call-on-self-referencing-class", "side": side}
     for side, out, aux, snap in (("family", got, got_aux, got_snap), ("twin", exp, exp_aux, exp_snap)):
         other = exp if side == "family" else got
         if out[0] != "EXC" or out == other:
